@@ -128,6 +128,9 @@ def run(chk):
             if not r1["accepted"]:
                 chk.report("reload:tcp:" + (r1.get("event") or "")[:30], "TCP scenario %s rejected by ReloadTrace at %s" % (s["id"], r1.get("event")), {"script.json": s, "trace.ndjson": open(tp).read()})
                 break
+    # the listener itself: one live sink per client number for every timing of connects, closes, resets and the stop
+    from checks import lscommon
+    cov["listener_traces"] = lscommon.run(chk, rnd, thorough)
     # (b, c) reloads with valid / invalid / incompatible configurations during end-to-end histories
     kinds = ("same", "transform", "invalid", "incompatible", "keysdrop", "addoutput")
     e2e = [A.random_script("e2e%d" % i, rnd, kinds) for i in range(500 if thorough else 24)]
